@@ -84,7 +84,7 @@ function plan (seed, run, tier) {
     } else if (k === 1) ops.push(rng.chance(1, 3) ? { op: 'LoadRaw', f, v: rng.below(files[f].versions.length) } : { op: 'Load', f })
     else if (k === 2) ops.push({ op: 'Throw', f, site: rng.below(6), via: rng.pick(vias), cbf: rng.below(nFiles), cbsite: rng.below(6) })
     else if (k === 3) ops.push(rng.chance(1, 4) ? { op: 'CaptureObj' } : { op: 'SetHandler', kind: rng.pick(['none', 'user', 'undefined', 'same', 'fragile', 'fragile']) })
-    else if (k === 4) { const lf = rng.below(lookups.length); ops.push({ op: 'Lookup', lf, line: rng.range(1, 14), col: rng.range(1, 25) }) } else if (k === 5) { const lf = rng.below(lookups.length); ops.push({ op: 'FsMutate', lf, to: rng.below(lookups[lf].variants.length) }) } else if (k === 6) ops.push({ op: 'Burst', n: rng.pick([5, 50, 1001, 1100]) })
+    else if (k === 4) { const lf = rng.below(lookups.length); ops.push({ op: 'Lookup', lf, line: rng.chance(1, 12) ? 0 : rng.range(1, 14), col: rng.chance(1, 6) ? null : rng.range(1, 25) }) } else if (k === 5) { const lf = rng.below(lookups.length); ops.push({ op: 'FsMutate', lf, to: rng.below(lookups[lf].variants.length) }) } else if (k === 6) ops.push({ op: 'Burst', n: rng.pick([5, 50, 1001, 1100]) })
     else if (k === 7) ops.push({ op: 'FsFault', faults: [rng.pick([{ op: 'existsSync', kind: 'false' }, { op: 'existsSync', kind: 'true' }, { op: 'existsSync', kind: 'throw' }, { op: 'readFileSync', kind: 'ENOENT' }, { op: 'readFileSync', kind: 'EACCES' }, { op: 'readFileSync', kind: 'EISDIR' }, { op: 'readFileSync', kind: 'truncate' }, { op: 'readFileSync', kind: 'garbage' }])] })
     else ops.push({ op: 'NonCacheRewrite', f, v: rng.below(files[f].versions.length) })
     // rarely: more than a thousand other files are rewritten through the caching rewriter
@@ -430,7 +430,9 @@ function execute (plan, table) {
         const l = plan.lookups[op.lf]; const s = lookupState[op.lf]
         if (!l) { seq++; continue }
         let ans
-        try { ans = pkg.getOriginalPathAndLineFromSourceMap(l.path, op.line, op.col) } catch (e) { viol('N1', 'N1:lookup-threw', `[op #${seq}] getOriginalPathAndLineFromSourceMap threw: ${e && e.message}`) }
+        // the column is optional (defaults to 0, i.e. before the first column of the line)
+        const col = op.col == null ? 0 : op.col
+        try { ans = op.col == null ? pkg.getOriginalPathAndLineFromSourceMap(l.path, op.line) : pkg.getOriginalPathAndLineFromSourceMap(l.path, op.line, op.col) } catch (e) { viol('N1', 'N1:lookup-threw', `[op #${seq}] getOriginalPathAndLineFromSourceMap threw: ${e && e.message}`) }
         if (Object.keys(simfs.fired).length) s.faulted = true
         if (ans) {
           const allowed = []
@@ -440,7 +442,7 @@ function execute (plan, table) {
             if (variant.kind === 'sections') allowed.push(e) // node's SourceMap understands index maps: either answer
             if (variant.mapJson !== undefined && (variant.kind === 'inline' || variant.kind === 'external' || variant.kind === 'sections')) {
               const m = smap.decodeMap(variant.mapJson)
-              const g = smap.glbAll(m, op.line - 1, op.col - 1)
+              const g = op.line >= 1 ? smap.glbAll(m, op.line - 1, col - 1) : []
               if (g.length) allowed.push(...g.map(t => ({ path: path.join(path.dirname(l.path), m.sources[t.src]), line: t.sl + 1 })))
               else allowed.push(e)
             } else allowed.push(e)
